@@ -59,7 +59,9 @@ class EF:
         self.io_names = io_names or (FAT_MUTATORS + CACHE_MUTATORS + CACHE_LOADS)
 
     def in_scope(self, fn):
-        return fn.npath.startswith(self.scope) and fn.kind != "Closure"
+        # closures with a body of their own are analysed as the functions they are (acquire's handshake lives in one); what they
+        # return to their caller is "propagated" as for any function
+        return fn.npath.startswith(self.scope)
 
     # ---- closure analysis for map_err(|_| Error::V) -----------------------------------
     def closure_const_variant(self, term):
